@@ -96,6 +96,11 @@ PARSE_DICT_SKELETON = (
     "If(BoolOp(And(), [Compare(Name('op', Load()), [In()], [Tuple([Attribute(Name('FilterOp', Load()), 'IN', Load()), Attribute(Name('FilterOp', Load()), 'NOT_IN', Load())], Load())]), "
     "Call(Name('isinstance', Load()), [Name('value', Load()), Tuple([Name('str', Load()), Name('bytes', Load()), Name('bytearray', Load())], Load())], [])]), "
     "[Raise(Call(Name('ValueError', Load()), [Constant('MSG')], []))], []), "
+    # an in / not_in value set is MATERIALISED once (a one-shot iterable would be empty for the second reader, file
+    # pruning); a Mapping (iterating it yields its keys) is refused; list(scalar) raises TypeError
+    "If(Compare(Name('op', Load()), [In()], [Tuple([Attribute(Name('FilterOp', Load()), 'IN', Load()), Attribute(Name('FilterOp', Load()), 'NOT_IN', Load())], Load())]), "
+    "[If(Call(Name('isinstance', Load()), [Name('value', Load()), Name('Mapping', Load())], []), [Raise(Call(Name('ValueError', Load()), [Constant('MSG')], []))], []), "
+    "Assign([Name('value', Store())], Call(Name('list', Load()), [Name('value', Load())], []))], []), "
     "Expr(Call(Attribute(Name('expressions', Load()), 'append', Load()), [Call(Name('FilterExpression', Load()), [Name('column', Load()), Name('op', Load()), Name('value', Load())], [])], []))])])])], "
     "[If(Compare(Name('condition', Load()), [Is()], [Constant(None)]), [Raise(Call(Name('ValueError', Load()), [Constant('MSG')], []))], "
     "[Expr(Call(Attribute(Name('expressions', Load()), 'append', Load()), [Call(Name('FilterExpression', Load()), [Name('column', Load()), Attribute(Name('FilterOp', Load()), 'EQ', Load()), Name('condition', Load())], [])], []))])])], []), "
